@@ -35,7 +35,7 @@ ASSUMPTIONS = ["the replica applies each controller's documented per-step update
                "values: |a-b| <= 5e-5 + 5e-5|b| (two solver runs from different start points, each stopped at 1e-8 MVA)"]
 REACH_PROBES = ["recycled_power_flow_executed", "batch_read_path_taken", "only_v_results", "intermediate_dump",
                 "step_failed_then_next_step_checked", "second_run_on_same_net", "line_parameter_controlled",
-                "multi_index_controller", "tap_controller_in_loop"]
+                "multi_index_controller", "tap_controller_in_loop", "subset_logged_in_non_table_order"]
 
 CTRL_TARGETS = [("load", "p_mw"), ("load", "q_mvar"), ("load", "scaling"), ("sgen", "p_mw"), ("sgen", "q_mvar"),
                 ("sgen", "scaling"), ("storage", "p_mw"), ("gen", "p_mw"), ("gen", "vm_pu"), ("ext_grid", "vm_pu"),
@@ -106,7 +106,8 @@ def generate(rng, idx, tier):
     logs = []
     for _ in range(rng.randint(1, 5)):
         t, v = rng.choice(LOG_VARS)
-        logs.append({"table": t, "variable": v, "subset": rng.choice([None, None, [rng.randrange(100), rng.randrange(100)]]),
+        logs.append({"table": t, "variable": v, "subset": rng.choice([None, None, [rng.randrange(100), rng.randrange(100)],
+                                                                   [rng.randrange(100) for _ in range(3)]]),
                      "eval": rng.choice([None, None, None, "max", "sum"])})
     ol.append({"op": "output_writer", "logs": logs, "path": rng.choice([None, "dir", "dir"]),
                "ftype": rng.choice([".p", ".json", ".csv"]),
@@ -375,7 +376,7 @@ def execute(ep, ctx):
             shutil.rmtree(tmpdir, ignore_errors=True)
 
 
-def _make_ow(net, ow_op, time_steps, tmpdir):
+def _make_ow(net, ow_op, time_steps, tmpdir, ctx=None):
     from pandapower.timeseries import OutputWriter
     if ow_op.get("ctor_logs"):
         lv, wanted = [], []
@@ -405,7 +406,10 @@ def _make_ow(net, ow_op, time_steps, tmpdir):
         seen.add((t, v, lg["eval"]))
         index = None
         if lg["subset"]:
-            index = sorted({ops.pick(net[el].index.tolist(), s) for s in lg["subset"]})
+            # in the order the user lists them (not necessarily the order of the element table)
+            index = list(dict.fromkeys(ops.pick(net[el].index.tolist(), s) for s in lg["subset"]))
+            if index != sorted(index):
+                ctx is not None and ctx.probe("subset_logged_in_non_table_order")
         ef = {"max": np.max, "sum": np.sum}.get(lg["eval"])
         en = f"{lg['eval']}_{t}_{v}" if ef is not None else None
         ow.log_variable(t, v, index=index, eval_function=ef, eval_name=en)
@@ -428,7 +432,7 @@ def _exec_run(net, op, ow_op, i, ctx, ctrl_desc, tmpdir, owm):
     clock = SimClock()
     old_pc = owm.perf_counter
     owm.perf_counter = clock.now
-    ow, wanted = _make_ow(net, ow_op, ts_arg, tmpdir)
+    ow, wanted = _make_ow(net, ow_op, ts_arg, tmpdir, ctx)
     if not wanted:
         owm.perf_counter = old_pc
         ctx.event("run_timeseries", "nothing-to-log")
